@@ -3,7 +3,7 @@ package c16
 // Native go-fuzz targets (thorough tier): one per decoder, oracle = checkOne (no
 // panic, bounded allocation, open finding classes excluded by the same pre-screen
 // as the rapid specs).  TestCheck (thorough) runs each target for a bounded time
-// in a child `go test -fuzz` with a fresh fuzz cache directory.
+// from one instrumented test binary (go test -c -fuzz) with a fresh fuzz cache directory.
 
 import (
 	"bufio"
@@ -116,10 +116,10 @@ func runNativeFuzz(t *testing.T, s *pbt.Suite) {
 	cache, cleanup := pbt.TempDir("fuzzcache")
 	defer cleanup()
 	type res struct {
-		Target   string  `json:"target"`
-		Execs    int     `json:"execs"`
-		Seconds  float64 `json:"seconds"`
-		Outcome  string  `json:"outcome"`
+		Target  string  `json:"target"`
+		Execs   int     `json:"execs"`
+		Seconds float64 `json:"seconds"`
+		Outcome string  `json:"outcome"`
 	}
 	var results []res
 	// one instrumented build, then every target is run from that binary
@@ -136,6 +136,9 @@ func runNativeFuzz(t *testing.T, s *pbt.Suite) {
 		}
 	}
 	for _, ft := range fuzzTargets {
+		if only := os.Getenv("VERIF_FUZZONLY"); only != "" && only != ft.fn {
+			continue
+		}
 		cmd := exec.Command(bin, "-test.run", "^$", "-test.fuzz", "^"+ft.fn+"$", "-test.fuzztime", fuzztime, "-test.parallel", par,
 			"-test.timeout", (budget + 5*time.Minute).String(), "-test.fuzzcachedir", filepath.Join(cache, ft.fn))
 		cmd.Dir = pkgDir
@@ -178,6 +181,11 @@ func runNativeFuzz(t *testing.T, s *pbt.Suite) {
 				_ = os.Remove(filepath.Dir(crash))
 				_ = os.Remove(filepath.Dir(filepath.Dir(crash)))
 				_ = os.Remove(filepath.Dir(filepath.Dir(filepath.Dir(crash))))
+			}
+			if rs.Outcome == "failed" && bytes.Contains(out, []byte("/seed#")) {
+				// a seed-corpus entry fails: the same inputs are the static cases of spec "bytes", which report it
+				rs.Outcome = "seed-fails"
+				fmt.Printf("note: a seed of %s fails before fuzzing starts (same input is a static case of spec bytes):\n%s\n", ft.fn, tail)
 			}
 			if rs.Outcome == "failed" {
 				fmt.Printf("note: native fuzz run of %s did not complete: %v\n%s\n", ft.fn, err, tail)
